@@ -206,11 +206,47 @@ fn check_bytes_in_place(bytes: &[u8]) -> CaseResult {
                 Some(i) if i < n && pairs[i].0 == t => {}
                 other => return Err(Fail::new("find_tag", format!("{}: find_tag({t}) = {other:?}", desc()))),
             }
+            // The lookups take `impl Into<Tag>`: every way to name the tag must give the same answer.
+            let by_u32 = (view.find(t).map(|v| v.as_ptr()), view.find_tag(t));
+            let others = [
+                (view.find(&t).map(|v| v.as_ptr()), view.find_tag(&t)),
+                (view.find(Tag::new_from_u32(t)).map(|v| v.as_ptr()), view.find_tag(Tag::new_from_u32(t))),
+                (view.find(t.to_le_bytes()).map(|v| v.as_ptr()), view.find_tag(t.to_le_bytes())),
+                (view.find(&t.to_le_bytes()).map(|v| v.as_ptr()), view.find_tag(&t.to_le_bytes())),
+            ];
+            if others.iter().any(|o| *o != by_u32) {
+                return Err(Fail::new("find:argument-kind", format!("{}: find / find_tag of tag {t} depend on how the tag is written (u32, &u32, Tag, [u8; 4], &[u8; 4])", desc())));
+            }
         }
         // tags_match_exactly.
         let exact: Vec<Tag> = pairs.iter().map(|p| Tag::new_from_u32(p.0)).collect();
         if !view.tags_match_exactly(exact.iter().copied()) {
             return Err(Fail::new("tags_match_exactly", format!("{}: tags_match_exactly(its own tags) is false", desc())));
+        }
+        // The argument is any IntoIterator: the same tags through iterators whose size hints say
+        // less (filter: upper bound only, here larger than what comes out; from_fn: nothing; chain of
+        // two halves; a Vec by value), which must not change the answer.
+        if n <= 64 {
+            let marker = Tag::new_from_u32(0xDEAD_BEEF);
+            let padded: Vec<Tag> = exact.iter().flat_map(|t| [marker, *t]).collect();
+            let filtered = padded.iter().copied().enumerate().filter(|(i, _)| i % 2 == 1).map(|(_, t)| t);
+            let mut k = 0usize;
+            let generated = std::iter::from_fn(|| {
+                k += 1;
+                exact.get(k - 1).copied()
+            });
+            let chained = exact[..n / 2].iter().copied().chain(exact[n / 2..].iter().copied());
+            let answers = [view.tags_match_exactly(filtered), view.tags_match_exactly(generated), view.tags_match_exactly(chained), view.tags_match_exactly(exact.clone())];
+            if answers != [true; 4] {
+                return Err(Fail::new(
+                    "tags_match_exactly:iterator-kind",
+                    format!("{}: tags_match_exactly(its own tags) through a filter / from_fn / chain / Vec gives {answers:?}", desc()),
+                ));
+            }
+            // ... and a filter that really yields one tag less must still be refused.
+            if n > 0 && view.tags_match_exactly(padded.iter().copied().enumerate().filter(|(i, _)| i % 2 == 1 && *i != 1).map(|(_, t)| t)) {
+                return Err(Fail::new("tags_match_exactly:iterator-kind", format!("{}: tags_match_exactly(all but the first tag, through a filter) is true", desc())));
+            }
         }
         let mut longer = exact.clone();
         longer.push(Tag::new_from_u32(7));
@@ -412,7 +448,7 @@ fn replay(_ctx: &Ctx, _group: &str, case: &Value) -> CaseResult {
 pub fn def() -> PropDef {
     PropDef {
         id: "C12",
-        rule: "shaped: start from a consistent header for N in 0..12 values (N up to 1100 in two cases out of 14, with the perturbed position then biased to power-of-two boundaries) (lengths 0 common, tags from a small pool so that equal tags occur) and apply one perturbation: swap two offsets, swap two tags, put the last offset at / just beyond the payload, shorten or lengthen the payload, declare N+1/N+2/N-1 or a huge N (2^28..2^32-1), an offset near u32::MAX, all tags equal; optionally truncate at any length. raw: short arbitrary byte strings. truncate-every-length: every prefix of five valid messages. small-word-strings: every string of up to 6 (8) little-endian words over {0,1,2,3,u32::MAX} followed by 0..3 bytes. Every byte string is handed to the library at an address that is 0..15 modulo 16 (a function of the bytes), not at an allocation's start, borrowed or (one in four) owned; for half of them a sibling with one header bit flipped is then checked at the very same address. Oracle: new never panics and accepts iff an independent validator does; on accepted views no accessor panics for indices 0..N+2 and usize::MAX-1, usize::MAX; values for 0..N tile the bytes after the 8N-byte header (checked by address); get(i), iter().nth(i), (tags()[i], get_value(i)) agree and equal the reference parse; every index >= N gives None from get, get_value and iter; find / find_tag agree with the stored tags; tags_match_exactly is true for the tags and false for a longer, shorter or perturbed list. Non-trivial: accepted with N in {0,1} or with equal adjacent tags or offsets, or rejected by a check other than the 4-byte minimum. Distinct: hash of the serialised case / by enumeration.",
+        rule: "shaped: start from a consistent header for N in 0..12 values (N up to 1100 in two cases out of 14, with the perturbed position then biased to power-of-two boundaries) (lengths 0 common, tags from a small pool so that equal tags occur) and apply one perturbation: swap two offsets, swap two tags, put the last offset at / just beyond the payload, shorten or lengthen the payload, declare N+1/N+2/N-1 or a huge N (2^28..2^32-1), an offset near u32::MAX, all tags equal; optionally truncate at any length. raw: short arbitrary byte strings. truncate-every-length: every prefix of five valid messages. small-word-strings: every string of up to 6 (8) little-endian words over {0,1,2,3,u32::MAX} followed by 0..3 bytes. Every byte string is handed to the library at an address that is 0..15 modulo 16 (a function of the bytes), not at an allocation's start, borrowed or (one in four) owned; for half of them a sibling with one header bit flipped is then checked at the very same address. Oracle: new never panics and accepts iff an independent validator does; on accepted views no accessor panics for indices 0..N+2 and usize::MAX-1, usize::MAX; values for 0..N tile the bytes after the 8N-byte header (checked by address); get(i), iter().nth(i), (tags()[i], get_value(i)) agree and equal the reference parse; every index >= N gives None from get, get_value and iter; find / find_tag agree with the stored tags; tags_match_exactly is true for the tags (given as a slice iterator, a Vec, a filter over a longer table, a from_fn generator, a chain) and false for a longer, shorter or perturbed list. Non-trivial: accepted with N in {0,1} or with equal adjacent tags or offsets, or rejected by a check other than the 4-byte minimum. Distinct: hash of the serialised case / by enumeration.",
         assumptions: &["refimpl/tlv_ref.rs is the reference validator (written from the crate documentation, checked against its example)"],
         exhaustive_note: Some("truncate-every-length and small-word-strings: complete enumerations"),
         shards: |t: Tier| t.pick(8, 16),
